@@ -38,6 +38,11 @@ pub trait WitnessWrite<F: Field> {
     where
         F: RichField,
     {
+        if ct.0.len() < value.0.len() {
+            return Err(anyhow!(
+                "cap target length is less than the cap length: surplus entries would be dropped"
+            ));
+        }
         for (ht, h) in ct.0.iter().zip(&value.0) {
             self.set_hash_target(*ht, *h)?;
         }
@@ -72,6 +77,11 @@ pub trait WitnessWrite<F: Field> {
     where
         F: RichField + Extendable<D>,
     {
+        if ets.len() < values.len() {
+            return Err(anyhow!(
+                "extension targets length is less than the values length: surplus values would be dropped"
+            ));
+        }
         debug_assert_eq!(ets.len(), values.len());
         for (&et, &v) in zip(ets, values) {
             self.set_extension_target(et, v)?;
